@@ -3047,6 +3047,87 @@ void Analyser::AnalyserImpl::analyseModel(const ModelPtr &model)
         }
     }
 
+    // Group our NLA equations into NLA systems. Two NLA equations belong to the
+    // same NLA system if they have an unknown variable in common, be it
+    // directly or through some other NLA equations (e.g., x+y = 3, y+z = 5 and
+    // z+x = 4). The equations of an NLA system are all siblings of one another
+    // and are, together, used to compute all the unknown variables of the NLA
+    // system.
+
+    AnalyserInternalEquationPtrs groupedInternalEquations;
+
+    nlaSystemIndex = MAX_SIZE_T;
+
+    for (const auto &internalEquation : mInternalEquations) {
+        if ((internalEquation->mType != AnalyserInternalEquation::Type::NLA)
+            || (std::find(groupedInternalEquations.begin(), groupedInternalEquations.end(), internalEquation) != groupedInternalEquations.end())) {
+            continue;
+        }
+
+        AnalyserInternalEquationPtrs nlaSystem = {internalEquation};
+
+        for (size_t i = 0; i < nlaSystem.size(); ++i) {
+            for (const auto &nlaSibling : nlaSystem[i]->mNlaSiblings) {
+                auto sibling = nlaSibling.lock();
+
+                if (std::find(nlaSystem.begin(), nlaSystem.end(), sibling) == nlaSystem.end()) {
+                    nlaSystem.push_back(sibling);
+                }
+            }
+
+            // Two NLA equations that each use an unknown variable of the other
+            // (e.g., a*z = 2 used to compute a and a+z+w = 3 used to compute z
+            // and w) cannot be solved one after the other, so they also belong
+            // to the same NLA system.
+
+            auto usesUnknownVariableOf = [](const AnalyserInternalEquationPtr &equation, const AnalyserInternalEquationPtr &otherEquation) {
+                // Note: to use a state is not to use its rate, which is what
+                //       is unknown when a state is an unknown variable.
+
+                return std::any_of(otherEquation->mUnknownVariables.begin(), otherEquation->mUnknownVariables.end(), [&](const auto &uv) {
+                    return (uv->mType != AnalyserInternalVariable::Type::STATE)
+                           && (std::find(equation->mAllVariables.begin(), equation->mAllVariables.end(), uv) != equation->mAllVariables.end());
+                });
+            };
+
+            for (const auto &otherInternalEquation : mInternalEquations) {
+                if ((otherInternalEquation->mType == AnalyserInternalEquation::Type::NLA)
+                    && (std::find(nlaSystem.begin(), nlaSystem.end(), otherInternalEquation) == nlaSystem.end())
+                    && usesUnknownVariableOf(nlaSystem[i], otherInternalEquation)
+                    && usesUnknownVariableOf(otherInternalEquation, nlaSystem[i])) {
+                    nlaSystem.push_back(otherInternalEquation);
+                }
+            }
+        }
+
+        AnalyserInternalVariablePtrs nlaSystemUnknownVariables;
+
+        for (const auto &nlaEquation : nlaSystem) {
+            for (const auto &unknownVariable : nlaEquation->mUnknownVariables) {
+                if (std::find(nlaSystemUnknownVariables.begin(), nlaSystemUnknownVariables.end(), unknownVariable) == nlaSystemUnknownVariables.end()) {
+                    nlaSystemUnknownVariables.push_back(unknownVariable);
+                }
+            }
+        }
+
+        ++nlaSystemIndex;
+
+        for (const auto &nlaEquation : nlaSystem) {
+            nlaEquation->mNlaSystemIndex = nlaSystemIndex;
+            nlaEquation->mUnknownVariables = nlaSystemUnknownVariables;
+
+            nlaEquation->mNlaSiblings.clear();
+
+            for (const auto &otherNlaEquation : nlaSystem) {
+                if (otherNlaEquation != nlaEquation) {
+                    nlaEquation->mNlaSiblings.push_back(otherNlaEquation);
+                }
+            }
+
+            groupedInternalEquations.push_back(nlaEquation);
+        }
+    }
+
     // Add/remove some internal equations.
 
     for (const auto &addedInternalEquation : addedInternalEquations) {
